@@ -77,7 +77,8 @@ def case_spec(draw, algo=None):
         p["tickers"] = draw(st.lists(st.sampled_from(uni), min_size=0, max_size=len(uni), unique=True))
     elif algo == "SelectHasData":
         p["lookback"] = {"days": draw(st.integers(1, g + 30))}
-        p["min_count"] = draw(st.integers(0, 5))
+        # left out, the documented default applies: ffn.get_num_days_required(lookback), in general not a whole number
+        p["min_count"] = draw(st.one_of(st.integers(0, 5), st.none(), st.none()))
     elif algo in ("SelectN", "SelectMomentum"):
         p["n"] = draw(st.one_of(st.integers(0, len(uni) + 1), st.sampled_from([0.25, 0.5, 0.34, 0.99])))
         p["sort_descending"] = draw(st.booleans())
@@ -118,6 +119,8 @@ def case_spec(draw, algo=None):
         spec["child_kinds"] = {t: draw(st.sampled_from(["Security", "SecurityBase", "CouponPayingSecurity", "HedgeSecurity", "FixedIncomeSecurity", "lazy"])) for t in uni}
         p["include"] = draw(st.lists(st.sampled_from(["Node", "SecurityBase", "Security", "FixedIncomeSecurity", "CouponPayingSecurity", "HedgeSecurity", "StrategyBase"]), min_size=1, max_size=3, unique=True))
         p["exclude"] = draw(st.lists(st.sampled_from(["Security", "HedgeSecurity", "CouponPayingSecurity", "FixedIncomeSecurity"]), min_size=0, max_size=2, unique=True))
+        # the docstring asks for lists of types, the defaults are tuples
+        p["types_as"] = draw(st.sampled_from(["tuple", "list"]))
     elif algo == "SelectActive":
         spec["closed"] = draw(st.lists(st.sampled_from(uni), max_size=len(uni), unique=True))
         spec["rolled"] = draw(st.one_of(st.none(), st.lists(st.sampled_from(uni), max_size=len(uni), unique=True)))
@@ -220,7 +223,7 @@ def case_select(ctx, spec):
         elif algo_name == "SelectThese":
             algo = A.SelectThese(list(p["tickers"]), **flags)
         elif algo_name == "SelectHasData":
-            algo = A.SelectHasData(lookback=interp.mk_offset(p["lookback"]), min_count=p["min_count"], **flags)
+            algo = A.SelectHasData(lookback=interp.mk_offset(p["lookback"]), **dict(flags, **({} if p["min_count"] is None else {"min_count": p["min_count"]})))
         elif algo_name == "SelectN":
             algo = A.SelectN(p["n"], sort_descending=p["sort_descending"], all_or_none=p["all_or_none"], filter_selected=p["filter_selected"])
         elif algo_name == "SelectMomentum":
@@ -236,7 +239,8 @@ def case_select(ctx, spec):
         elif algo_name == "SelectRegex":
             algo = A.SelectRegex(p["regex"])
         elif algo_name == "SelectTypes":
-            algo = A.SelectTypes(include_types=tuple(getattr(bt.core, t) for t in p["include"]), exclude_types=tuple(getattr(bt.core, t) for t in p["exclude"]))
+            box = list if p.get("types_as") == "list" else tuple
+            algo = A.SelectTypes(include_types=box(getattr(bt.core, t) for t in p["include"]), exclude_types=box(getattr(bt.core, t) for t in p["exclude"]))
         elif algo_name == "SelectActive":
             algo = A.SelectActive()
             strat.perm["closed"] = set(spec["closed"])
@@ -276,8 +280,11 @@ def case_select(ctx, spec):
         exp = []
         for t in base:
             cnt = sum(1 for k in range(0, i + 1) if _ts(ds[k]) >= t_lo and pr[t][k] is not None)
-            if cnt >= p["min_count"] and tradable(row[t], flags):
+            need = p["min_count"] if p["min_count"] is not None else bt.ffn.get_num_days_required(interp.mk_offset(p["lookback"]))
+            if cnt >= need and tradable(row[t], flags):
                 exp.append(t)
+        if p["min_count"] is None:
+            labs.append("default_min_count")
         expect_set(exp)
         kept, filtered_out = len(exp), len(base) - len(exp)
     elif algo_name in ("SelectN", "SelectMomentum"):
